@@ -267,12 +267,12 @@ example : (callSeq true [] [[.nonceErr, .accept], [.accept, .accept]]).map (·.c
 
 /-! ### configuration across setters and reconnects -/
 
-/-- every gas price ever set fits `int64`: the adaptor keeps it in a `uint64` field, but `Connect` rebuilds the sessions
-with `big.NewInt(int64(e.gasPrice))` — a price in [2^63, 2^64) comes back NEGATIVE after a reconnect and every later
-call fails locally ("rlp: cannot encode negative *big.Int"; review E #6, shown on the real adaptor).  `Adaptor.reconnect`
-models the conversion as the identity, which is what the code does exactly on this domain; prices ≥ 2^63 (≈ 9.2·10^9 gwei)
-are outside the theorems — declared in meta/C19.json. -/
-def SmallPrices (ops : List Op) : Prop := ∀ v, Op.setGasPrice v ∈ ops → v < 2 ^ 63
+/-- every gas price ever set fits the `uint64` field the adaptor keeps it in.  `Connect` rebuilds the sessions with
+`new(big.Int).SetUint64(e.gasPrice)` (regenerated: `config_shape_matches_model`), so `Adaptor.reconnect` — the identity on
+the fields — is what the code does on this whole domain.  (Until /repo 21a9d40 the conversion went through `int64`: a price
+in [2^63, 2^64) came back negative after a reconnect and every later call failed with an rlp error — review E #6, fixed;
+`cfg` lines set 2^63−1, 2^63 and 2^64−1 around reconnects.) -/
+def SmallPrices (ops : List Op) : Prop := ∀ v, Op.setGasPrice v ∈ ops → v < 2 ^ 64
 
 /-- **reconnect preserves the configuration**: when the session copy and the fields agree (they do after every
 history, `config_coherent`), `DisconnectAll` + `Connect` leaves gas limit, gas price and chain id of the
@@ -281,7 +281,7 @@ theorem reconnect_preserves_config (a : Adaptor) (h : a.session = a.field) :
     a.reconnect.session = a.session ∧ a.reconnect.field = a.field := by
   simp [Adaptor.reconnect, h]
 
-/-- after ANY history of setters, reconnects and calls (prices within `int64`) the sessions carry exactly the
+/-- after ANY history of setters, reconnects and calls (prices within `uint64`) the sessions carry exactly the
 configuration the operator has set, and the fields `Connect` would rebuild them from agree with it -/
 theorem config_coherent (fixed : Bool) : ∀ (ops : List Op) (a : Adaptor),
     a.session = a.field → SmallPrices ops →
@@ -295,7 +295,7 @@ theorem config_coherent (fixed : Bool) : ∀ (ops : List Op) (a : Adaptor),
     have hs' : SmallPrices ops := fun v hv => hs v (List.mem_cons_of_mem _ hv)
     cases op with
     | setGasPrice v =>
-      have hv : v < 2 ^ 64 := Nat.lt_trans (hs v (by simp)) (by decide)
+      have hv : v < 2 ^ 64 := hs v (by simp)
       have hm : v % 2 ^ 64 = v := Nat.mod_eq_of_lt hv
       have hc : (a.setGasPrice v).session = (a.setGasPrice v).field := by
         simp only [Adaptor.setGasPrice, u64, hm, h]
@@ -610,9 +610,9 @@ theorem config_shape_matches_model :
       "0 adaptor.key = key", "0 adaptor.gasLimit = uint64(gasLimitInt)", "0 adaptor.gasPrice = uint64(gasPriceInt)"] ∧
     connectTransactor =
       ["auth, err := bind.NewKeyedTransactorWithChainID(e.key.PrivateKey, e.chainID)", "auth.GasLimit = e.gasLimit",
-       "if e.gasPrice != 0", "auth.GasPrice = big.NewInt(int64(e.gasPrice))", "auth.Context = ctx",
+       "if e.gasPrice != 0", "auth.GasPrice = new(big.Int).SetUint64(e.gasPrice)", "auth.Context = ctx",
        "auth, err := bind.NewKeyedTransactorWithChainID(e.key.PrivateKey, e.chainID)", "auth.GasLimit = e.gasLimit",
-       "if e.gasPrice != 0", "auth.GasPrice = big.NewInt(int64(e.gasPrice))", "auth.Context = ctx"] := by
+       "if e.gasPrice != 0", "auth.GasPrice = new(big.Int).SetUint64(e.gasPrice)", "auth.Context = ctx"] := by
   decide
 
 /-- **regenerated: how `handleCR` builds the arguments of `Commit` and `Reveal`** — the secret `sec`, the
